@@ -542,6 +542,8 @@ class Prop:
                                      ('reset', 0, [(n(10, 2, 0, 0, 16), 16, 1), (n(10, 2, 0, 0, 16), 16, 1)]), ('drop', 0), ('iter',)]},
         ]
         nh, nr, nn = (1500, 400, 150) if tier == 'quick' else (8000, 2000, 600)
+        sc = float(os.environ.get('VERIF_RANDOM_SCALE', '1'))     # mutation self-tests: enumerated classes + a thin random sample
+        nh, nr, nn = int(nh * sc), int(nr * sc), int(nn * sc)
         for _ in range(nh): cases.append(self.history_case(rng, tier))
         for _ in range(nr): cases.append(self.real_case(rng, rng.choice([4, 4, 6])))
         for _ in range(nn): cases.append(self.history_case(rng, tier, noncanon=True))
